@@ -85,7 +85,10 @@ def drift_cases(draw):
     return dict(n_atoms=n_atoms, eom=eom, amp_on=draw(st.sampled_from([2.0, 5.0, 8.0, 12.0])),
                 opt_off=draw(st.sampled_from([0.0, -10.0, 5.0, 30.0])),
                 pre_pulse=draw(st.booleans()), steps=steps, disable=draw(st.booleans()),
-                spacing=draw(st.sampled_from([6.0, 9.0])))
+                spacing=draw(st.sampled_from([6.0, 9.0])),
+                # channel timing grid: automatically inserted delays are rounded up to it
+                clock=draw(st.sampled_from([1, 4, 4])), min_duration=draw(st.sampled_from([1, 16])),
+                bw=draw(st.sampled_from([8, 9, 11, 19])))  # odd rise times: buffers off the clock grid
 
 
 def check_drift(case, ctx: Ctx):
@@ -106,7 +109,8 @@ def check_drift(case, ctx: Ctx):
                      controlled_beams=tuple(beams[b] for b in e["controlled_beams"]),
                      mod_bandwidth=e["mod_bandwidth"], custom_buffer_time=e.get("custom_buffer_time"))
     dev_a = VirtualDevice(name="A", dimensions=2, rydberg_level=60, channel_objects=(
-        Rydberg.Global(None, None, mod_bandwidth=8, eom_config=eom),))
+        Rydberg.Global(None, None, mod_bandwidth=case.get("bw", 8), eom_config=eom,
+                       clock_period=case.get("clock", 1), min_duration=case.get("min_duration", 1)),))
     dev_b = VirtualDevice(name="B", dimensions=2, rydberg_level=60, channel_objects=(
         Rydberg.Global(None, None),))
     reg = Register({f"q{i}": (i * case["spacing"], 0.0) for i in range(case["n_atoms"])})
